@@ -52,7 +52,8 @@ impl Scheduler {
     /// Schedules an action at a future time.
     ///
     /// An error is returned if the specified time is not in the future of the
-    /// current simulation time.
+    /// current simulation time or if the action is periodic with a null
+    /// period.
     ///
     /// If multiple actions send events at the same simulation time to the same
     /// model, these events are guaranteed to be processed according to the
@@ -365,6 +366,14 @@ impl GlobalScheduler {
         action: Action,
         origin_id: usize,
     ) -> Result<(), SchedulingError> {
+        // A periodic action with a null period would be re-scheduled forever
+        // at the same simulation time.
+        if let Some((_, period)) = action.next() {
+            if period.is_zero() {
+                return Err(SchedulingError::NullRepetitionPeriod);
+            }
+        }
+
         // The scheduler queue must always be locked when reading the time,
         // otherwise the following race could occur:
         // 1) this method reads the time and concludes that it is not too late
